@@ -22,6 +22,7 @@ CLASSES = {
     'linear': {'quick': 520, 'thorough': 8000},
     'rational': {'quick': 240, 'thorough': 4000},
     'solve': {'quick': 160, 'thorough': 2500},
+    'named_constants': {'quick': 240, 'thorough': 3000},
     'matrix_text': {'quick': 600, 'thorough': 8000},
     'mirror_pairs': {'quick': 300, 'thorough': 3000},
     'exact_lattice': {'quick': 600, 'thorough': 6000},
@@ -230,6 +231,51 @@ def run_linear(rng, obs):
         if c != '=' and l in names and a[names.index(l)] < 0: neg = True
     obs.nontrivial = neg and len(seen) == 2
     obs.notes = {'cases': list(cases), 'truth_values_seen': sorted(seen)}
+
+
+def run_named_constants(rng, obs):
+    """simplify(text, locals={name: value}): named constants take the values the caller gives them, so the result holds exactly where the text
+    with the values written out holds"""
+    from mystic.symbolic import simplify
+    n = rng.randint(1, 3)
+    variables, names = names_for(rng, n)
+    # (names that numpy / math also define - e, pi, tau, euler_gamma - are left out: see DESIGN section 6)
+    # (nor names that contain, or are contained in, a variable name of the case: whole-name substitution of named variables is a recorded C13 finding)
+    pool = [c for c in ['A0', 'Kc', 'QQ', 'C1', 'Bq', 'a', 'q'] if not any(c in v or v in c for v in names)]
+    cname = rng.choice(pool or ['QZ9'])
+    cval = rng.choice([-2.0, 3.0, 0.5, -1.5, 4.0])
+    nlines = rng.randint(1, min(2, n))
+    lines_n, lines_v = [], []
+    for j in range(nlines):
+        co = [rng.choice([1.0, 2.0, -1.0, 3.0]) for _ in range(n)]
+        pos = rng.randrange(n) if j == 0 else None        # the named constant is the coefficient of one variable of the first line
+        cmp = rng.choice(['<=', '>=', '<', '>', '='] if j == 0 else ['<=', '>='])
+        rhs = rng.choice([3.0, 0.0, -2.0, 1.5])
+        def term(i, namedform):
+            if i == pos: return '%s*%s' % (cname if namedform else repr(cval), names[i])
+            return '%s*%s' % (fmt(co[i]), names[i])
+        lines_n.append('%s %s %s' % (' + '.join(term(i, True) for i in range(n)), cmp, fmt(rhs)))
+        lines_v.append('%s %s %s' % (' + '.join(term(i, False) for i in range(n)), cmp, fmt(rhs)))
+    text_n, text_v = '\n'.join(lines_n), '\n'.join(lines_v)
+    obs.desc = {'text': text_n, 'locals': {cname: cval}, 'variables': variables if isinstance(variables, str) else names}
+    try:
+        res = simplify(text_n, variables=variables, locals={cname: cval}, all=True)
+    except Exception as e:
+        obs.skip('simplify raised %s' % type(e).__name__); obs.event('simplify_raised'); return
+    cases = res if isinstance(res, tuple) else (res,)
+    if not all(isinstance(c, str) and c.strip() for c in cases):
+        obs.skip('no result'); return
+    seen = set(); bad = []
+    for _ in range(60):
+        x = [rng.choice([rng.uniform(-6, 6), float(rng.randint(-4, 4))]) for _ in range(n)]
+        a = T.satisfied3(text_v, names, x)
+        bs = [T.satisfied3(c, names, x, extra={cname: cval}) for c in cases]
+        if a is None or any(b is None for b in bs): continue
+        obs.event('points_judged'); seen.add(a)
+        if a != any(bs) and len(bad) < 3: bad.append({'x': x, 'input_holds': a, 'cases_hold': bs})
+    obs.check(not bad, 'same:the rewritten system is satisfied by exactly the same points as the input', text=text_n, locals={cname: cval}, result=list(cases), witnesses=bad, named_constant=cname)
+    obs.event('named_constant_cases')
+    obs.nontrivial = len(seen) == 2
 
 
 def run_mirror(rng, obs):
@@ -564,4 +610,4 @@ def run_case(cls, idx, rng, obs):
     np.seterr(all='ignore')
     if cls == 'hostile_zero_rhs': return run_hostile('zero_rhs', rng, obs)
     if cls == 'hostile_contradiction': return run_hostile('contradiction', rng, obs)
-    return {'linear': run_linear, 'rational': run_rational, 'solve': run_solve, 'matrix_text': run_matrix_text, 'mirror_pairs': run_mirror, 'exact_lattice': run_exact}[cls](rng, obs)
+    return {'linear': run_linear, 'rational': run_rational, 'solve': run_solve, 'matrix_text': run_matrix_text, 'mirror_pairs': run_mirror, 'named_constants': run_named_constants, 'exact_lattice': run_exact}[cls](rng, obs)
